@@ -5,7 +5,7 @@
 REPO=${REPO:-/repo}
 src=$1; shift
 out=$(mktemp -d /tmp/upv-replay.XXXXXX)
-L="$REPO/lib/upipe/.libs $REPO/lib/upipe-modules/.libs $REPO/lib/upump-ev/.libs $REPO/lib/upipe-pthread/.libs"
+L="$REPO/lib/upipe/.libs $REPO/lib/upipe-filters/.libs $REPO/lib/upipe-modules/.libs $REPO/lib/upump-ev/.libs $REPO/lib/upipe-pthread/.libs"
 LF=""; LP=""
 for d in $L; do LF="$LF -L$d"; LP="$LP:$d"; done
 HERE=$(dirname "$0")
